@@ -341,9 +341,13 @@ class Path:
         self.alloc_base, self.nalloc = nb, 0
         return before
 
-    def new_id(self):
+    def new_id(self, cls=None):
         i = self.alloc_base + self.nalloc
         self.nalloc += 1
+        if cls is not None:
+            # objects allocated on this path are known not to be instances of unrelated classes:
+            # quantifiers over refs("C") leave them out (executor: domain refs)
+            self.__dict__.setdefault('new_objs', []).append((i, cls))
         return i
 
     def read_field(self, ref, field):
@@ -445,7 +449,7 @@ def coerce(path, v, shape):
             return repeat(path, box(v.elem), v.n)
         if isinstance(shape, RefS) and shape.cls in CONTAINERS and CONTAINERS[shape.cls][0] == 'list':
             elem = CONTAINERS[shape.cls][1]
-            obj = SRef(shape, path.new_id())
+            obj = SRef(shape, path.new_id(shape.cls))
             items = container_fields(shape.cls)['items'].fresh('rep')
             k = z3.Int(fresh_name('k'))
             x = coerce(path, v.elem, elem)
@@ -477,7 +481,7 @@ def coerce(path, v, shape):
             and isinstance(v, PyList) and path is not None:
         # a list literal stored where a heap list is declared: allocate it
         elem = CONTAINERS[shape.cls][1]
-        obj = SRef(shape, path.new_id())
+        obj = SRef(shape, path.new_id(shape.cls))
         items = container_fields(shape.cls)['items'].fresh('lit')
         for i, x in enumerate(v.items):
             items = items.shape.store(items, SV(IntS, z3.IntVal(i)), coerce(path, x, elem))
